@@ -38,6 +38,12 @@ CHECKS = {
  "C17": dict(cat="exploration", ref="4/C17", tech="model-based property testing with forked reference interpreter: generated histories containing deepcopy/pickle clone operations followed by diverging suffixes; aliasing checks",
    text="At generated points of generated histories (also before a coroutine machine is activated) the machine is deep-copied or pickled and unpickled; the reference interpreter is forked and original and clones receive different suffixes. Each must follow its own fork in states, results, exceptions and complete callback logs (so model, listeners and options were carried over), and models, listeners, recorders and a custom mutable attribute must be equal but unshared.",
    note="Trusted: reference interpreter; generated classes are registered as module attributes so pickle can import them."),
+ "C09": dict(cat="exploration", ref="4/C09", tech="exhaustive small-scope enumeration (all definitions over <=3 states; <=4 in thorough) plus Hypothesis-generated definitions, against an independent fixpoint oracle",
+   text="Every definition over 1..3 states - every edge set, initial-flag set, final-flag set, strict on/off: 66 064 classes - is created and its acceptance / InvalidDefinition / warning outcome compared with an independent set-based closure computation (n = 4 with one initial state, 8.4 M classes, in the thorough tier); Hypothesis adds n = 5, edge multiplicities, multi-event names, from_.any(), internal (non-)self transitions, shuffled declaration order and state-less / event-less classes. coverage.exhaustive is true for the enumerated part.",
+   note="Trusted: the 40-line oracle (closure by fixpoint iteration). Beyond n = 4 definitions are sampled. Warning texts are matched by the two documented phrases."),
+ "C18": dict(cat="exploration", ref="4/C18", tech="property-based testing with a structural oracle: the pydot object of generated classes and instances (in every state reached by a generated history) is compared with the abstract machine",
+   text="For generated machines the pydot.Dot of the class and of the instance in every state reached by a generated history is read back structurally: node set, the single initial pseudo-edge, the multiset of (source, target, events, guards) edges of external transitions, internal transitions listed inside their state and never as edges, double border iff final, exactly the current state (per sm.current_state) highlighted on instances and none on classes, and a pydot parse round-trip of to_string() (Graphviz rendering in the thorough tier).",
+   note="Trusted: pydot's object model. State ids avoid 'i' (finding K5). Fonts, colours other than the active fill, and label layout are not asserted."),
 }
 def main():
     checks = []
